@@ -102,7 +102,24 @@ class ParametersModel:
             return [Res(st, NONE)]
         raise Unsupported("del parameters[...]")
 
-    methods = {"get": m_get, "__delitem__": m_delitem}
+    def m_pop(self, E, st, obj, args, kw):
+        """parameters.pop('$key', default): the value and the entry is removed - or the default when there is no such entry"""
+        k = args[0]
+        if z3.is_true(z3.simplify(k.e == z3.StringVal("$key"))) and len(args) > 1:
+            out = []
+            for s2, has in E.branch(st, st.get(obj, "has_key").e):
+                if has:
+                    v = s2.get(obj, "key_value")
+                    s2.set(obj, "has_key", VBool(False))
+                    s2.set(obj, "key_removed", VBool(True))
+                    s2.set(obj, "nonempty", VBool(fresh("nonempty_after_pop", BoolS)))
+                    out.append(Res(s2, v))
+                else:
+                    out.append(Res(s2, args[1]))
+            return out
+        raise Unsupported("parameters.pop(...)")
+
+    methods = {"get": m_get, "__delitem__": m_delitem, "pop": m_pop}
 
 
 @R.model("pyro_app.settings")
